@@ -149,38 +149,83 @@ Qed.
 
 (* ------------------------------------------------------------------------------------------ the checker is sound *)
 
+Lemma check_num_sound : forall g d q,
+  check_num g d = true -> accepts g (VNum q) = in_range d (VNum q).
+Proof.
+  intros g d q Hc. unfold check_num in Hc. destruct d as [lo hi|n].
+  - destruct (clauses_hls (g_clauses g)) as [G|] eqn:EG; [|discriminate].
+    apply andb_true_iff in Hc. destruct Hc as [Hc Hpre].
+    apply andb_true_iff in Hc. destruct Hc as [HGD HDG].
+    assert (Hcore : forallb (fun c => clause_ok c (VNum q)) (g_clauses g)
+                    = in_range (DRange lo hi) (VNum q)).
+    { rewrite (clauses_ok_hls _ _ _ EG), in_range_hls. apply hls_equal; assumption. }
+    remember (in_range (DRange lo hi) (VNum q)) as R eqn:ER.
+    unfold accepts. destruct (g_pre g) eqn:Ep; cbn [pre_fires]; try exact Hcore.
+    destruct (Qeq_bool q 0) eqn:E0; cbn [negb]; [|exact Hcore].
+    apply andb_true_iff in Hpre. destruct Hpre as [H0 Her].
+    apply Qeq_bool_iff in E0.
+    rewrite ER, (in_range_num_Qeq lo hi q 0 E0), H0. exact Her.
+  - assert (Hin : in_range (DLen n) (VNum q) = false) by reflexivity.
+    rewrite Hin. unfold accepts.
+    destruct (g_pre g) eqn:Ep; cbn [pre_fires]; try discriminate;
+      apply len_clause_rejects_numbers; assumption.
+Qed.
+
+(* a numpy scalar behaves like the number it carries, except under `isinstance(x, int | float)` *)
+Lemma accepts_np_num : forall g q,
+  g_pre g <> PIsNumber -> accepts g (VNpNum q) = accepts g (VNum q).
+Proof.
+  intros g q Hp. unfold accepts. destruct (g_pre g); try reflexivity. congruence.
+Qed.
+
+Lemma agrees_spec : forall acc d x,
+  agrees acc d x = true ->
+  (is_np x = false -> acc = in_range d x) /\ (acc = true -> in_range d x = true).
+Proof.
+  intros acc d x H. unfold agrees in H. destruct (is_np x).
+  - split; [discriminate|]. intro Ha. subst acc. exact H.
+  - apply eqb_prop in H. split; [intros _; exact H|]. intro Ha. congruence.
+Qed.
+
 Theorem check_side_sound : forall g d k x,
   check_side g d k = true -> well_kinded d x = true -> class_of x = Some k ->
-  accepts g x = in_range d x.
+  agrees (accepts g x) d x = true.
 Proof.
   intros g d k x Hc Hwk Hk.
-  destruct x as [|q| |m]; simpl in Hk; inversion Hk; subst k; clear Hk.
+  destruct x as [|q| |m|p|q|]; simpl in Hk; inversion Hk; subst k; clear Hk.
   - (* a number *)
-    unfold check_side in Hc. cbv iota in Hc. destruct d as [lo hi|n].
-    + destruct (clauses_hls (g_clauses g)) as [G|] eqn:EG; [|discriminate].
-      apply andb_true_iff in Hc. destruct Hc as [Hc Hpre].
-      apply andb_true_iff in Hc. destruct Hc as [HGD HDG].
-      assert (Hcore : forallb (fun c => clause_ok c (VNum q)) (g_clauses g)
-                      = in_range (DRange lo hi) (VNum q)).
-      { rewrite (clauses_ok_hls _ _ _ EG), in_range_hls. apply hls_equal; assumption. }
-      remember (in_range (DRange lo hi) (VNum q)) as R eqn:ER.
-      unfold accepts. destruct (g_pre g) eqn:Ep; cbn [pre_fires]; try exact Hcore.
-      destruct (Qeq_bool q 0) eqn:E0; cbn [negb]; [|exact Hcore].
-      apply andb_true_iff in Hpre. destruct Hpre as [H0 Her].
-      apply Qeq_bool_iff in E0.
-      rewrite ER, (in_range_num_Qeq lo hi q 0 E0), H0. exact Her.
-    + assert (Hin : in_range (DLen n) (VNum q) = false) by reflexivity.
-      rewrite Hin. unfold accepts.
-      destruct (g_pre g) eqn:Ep; cbn [pre_fires]; try discriminate;
-        apply len_clause_rejects_numbers; assumption.
+    unfold agrees. cbn [is_np]. simpl in Hc.
+    rewrite (check_num_sound _ _ q Hc). apply eqb_reflx.
   - (* NaN *)
-    simpl in Hc. apply negb_true_iff in Hc. rewrite Hc. destruct d; reflexivity.
+    simpl in Hc. apply negb_true_iff in Hc. unfold agrees. cbn [is_np]. rewrite Hc.
+    destruct d; reflexivity.
   - (* a sequence *)
     destruct d as [lo hi|n]; [simpl in Hwk; discriminate|].
-    simpl in Hc. unfold accepts.
-    destruct (g_pre g) eqn:Ep; try discriminate; simpl;
-      (destruct (g_clauses g) as [|c cs] eqn:Ecs; [discriminate|]);
-      apply len_clauses_on_seq; [discriminate | assumption | discriminate | assumption].
+    unfold agrees. cbn [is_np].
+    assert (E : accepts g (VSeq m) = in_range (DLen n) (VSeq m)).
+    { simpl in Hc. unfold accepts.
+      destruct (g_pre g) eqn:Ep; try discriminate; simpl;
+        (destruct (g_clauses g) as [|c cs] eqn:Ecs; [discriminate|]);
+        apply len_clauses_on_seq; [discriminate | assumption | discriminate | assumption]. }
+    rewrite E. apply eqb_reflx.
+  - (* +-inf *)
+    simpl in Hc. apply andb_true_iff in Hc. destruct Hc as [H1 H2].
+    unfold agrees. cbn [is_np]. destruct p; assumption.
+  - (* a number carried by a numpy scalar *)
+    unfold agrees. cbn [is_np]. simpl in Hc.
+    destruct (g_pre g) eqn:Ep.
+    + rewrite accepts_np_num by congruence.
+      change (in_range d (VNpNum q)) with (in_range d (VNum q)).
+      rewrite (check_num_sound _ _ q Hc). destruct (in_range d (VNum q)); reflexivity.
+    + rewrite accepts_np_num by congruence.
+      change (in_range d (VNpNum q)) with (in_range d (VNum q)).
+      rewrite (check_num_sound _ _ q Hc). destruct (in_range d (VNum q)); reflexivity.
+    + rewrite accepts_np_num by congruence.
+      change (in_range d (VNpNum q)) with (in_range d (VNum q)).
+      rewrite (check_num_sound _ _ q Hc). destruct (in_range d (VNum q)); reflexivity.
+    + unfold accepts. rewrite Ep. cbn [pre_fires]. rewrite Hc. reflexivity.
+  - (* NaN carried by a numpy scalar *)
+    simpl in Hc. apply negb_true_iff in Hc. unfold agrees. cbn [is_np]. rewrite Hc. reflexivity.
 Qed.
 
 (* the statement of C12_same_limits, parametrised by the tables and by a set of excepted
@@ -189,7 +234,9 @@ Definition same_limits (docs : list docrow) (gt : guard_table) (exc : exceptions
   forall r s x k,
     In r docs -> well_kinded (d_range r) x = true -> class_of x = Some k ->
     excepted exc (d_key r) s k = false ->
-    exists g, guard_at gt (d_key r) s = Some g /\ accepts g x = in_range (d_range r) x.
+    exists g, guard_at gt (d_key r) s = Some g /\
+              (is_np x = false -> accepts g x = in_range (d_range r) x) /\
+              (accepts g x = true -> in_range (d_range r) x = true).
 
 Theorem check_table_sound : forall docs gt exc,
   check_table docs gt exc = true -> same_limits docs gt exc.
@@ -199,12 +246,47 @@ Proof.
   unfold check_row in H. unfold guard_at.
   destruct (lookup_guards gt (d_key r)) as [gs|]; [|discriminate].
   exists (pick s gs). split; [reflexivity|].
+  apply agrees_spec.
   apply (check_side_sound _ _ k); try assumption.
   rewrite forallb_forall in H.
   assert (Hs : In s [SCtor; SSetter]) by (destruct s; simpl; auto).
   specialize (H s Hs). rewrite forallb_forall in H.
-  assert (Hkin : In k [KNum; KNaN; KSeq]) by (destruct k; simpl; auto).
+  assert (Hkin : In k all_classes) by (destruct k; simpl; auto 10).
   specialize (H k Hkin). rewrite Hex in H. exact H.
+Qed.
+
+(* consequences of the full statement (no exception) *)
+Theorem same_limits_pointwise : forall docs gt,
+  same_limits docs gt [] ->
+  forall r s x k,
+    In r docs -> well_kinded (d_range r) x = true -> class_of x = Some k ->
+    exists g, guard_at gt (d_key r) s = Some g /\
+              (is_np x = false -> accepts g x = in_range (d_range r) x) /\
+              (accepts g x = true -> in_range (d_range r) x = true).
+Proof. intros docs gt H r s x k Hr Hw Hk. exact (H r s x k Hr Hw Hk eq_refl). Qed.
+
+Theorem ctor_equals_setter : forall docs gt,
+  same_limits docs gt [] ->
+  forall r x k,
+    In r docs -> well_kinded (d_range r) x = true -> class_of x = Some k -> is_np x = false ->
+    exists gc gs, guard_at gt (d_key r) SCtor = Some gc /\ guard_at gt (d_key r) SSetter = Some gs /\
+                  accepts gc x = accepts gs x.
+Proof.
+  intros docs gt H r x k Hr Hw Hk Hn.
+  destruct (H r SCtor x k Hr Hw Hk eq_refl) as [gc [Hgc [Hc _]]].
+  destruct (H r SSetter x k Hr Hw Hk eq_refl) as [gs [Hgs [Hs _]]].
+  exists gc, gs. repeat split; try assumption. rewrite (Hc Hn), (Hs Hn). reflexivity.
+Qed.
+
+(* an instance spelled out for one row (used as a non-vacuity example) *)
+Theorem same_limits_num_instance : forall docs gt r s,
+  same_limits docs gt [] -> In r docs -> (exists lo hi, d_range r = DRange lo hi) ->
+  forall q, exists g, guard_at gt (d_key r) s = Some g /\ accepts g (VNum q) = in_range (d_range r) (VNum q).
+Proof.
+  intros docs gt r s H Hr [lo [hi Hd]] q.
+  destruct (H r s (VNum q) KNum Hr) as [g [Hg [Ha _]]]; try reflexivity.
+  - rewrite Hd. reflexivity.
+  - exists g. split; [exact Hg | exact (Ha eq_refl)].
 Qed.
 
 (* ------------------------------------------------------------------------------------------ refutation *)
@@ -238,9 +320,12 @@ Proof.
   assert (Hk : exists k, class_of x = Some k).
   { destruct x; simpl in *; try discriminate; eauto. destruct (d_range r); discriminate. }
   destruct Hk as [k Hk].
-  destruct (Hall r s x k Hin Hwk Hk eq_refl) as [g' [Hg' Heq]].
+  destruct (Hall r s x k Hin Hwk Hk eq_refl) as [g' [Hg' [Heq Himp]]].
   rewrite Hkey, Eg in Hg'. inversion Hg'; subst g'.
-  rewrite Heq in Hne. rewrite eqb_reflx in Hne. discriminate.
+  apply negb_true_iff in Hne. unfold agrees in Hne.
+  destruct (is_np x).
+  - destruct (accepts g x); [rewrite (Himp eq_refl) in Hne|]; discriminate.
+  - rewrite (Heq eq_refl), eqb_reflx in Hne. discriminate.
 Qed.
 
 (* every listed witness is a real disagreement *)
@@ -248,7 +333,7 @@ Theorem witnesses_are_discrepancies : forall docs gt ws,
   forallb (is_discrepancy docs gt) ws = true ->
   forall f s x, In (f, s, x) ws ->
   exists r g, lookup_doc docs f = Some r /\ guard_at gt f s = Some g /\
-              well_kinded (d_range r) x = true /\ accepts g x <> in_range (d_range r) x.
+              well_kinded (d_range r) x = true /\ agrees (accepts g x) (d_range r) x = false.
 Proof.
   intros docs gt ws H f s x Hin. rewrite forallb_forall in H. specialize (H _ Hin).
   unfold is_discrepancy in H.
@@ -256,7 +341,7 @@ Proof.
   destruct (guard_at gt f s) as [g|]; [|discriminate].
   apply andb_true_iff in H. destruct H as [Hwk Hne].
   exists r, g. repeat split; try assumption.
-  intro E. rewrite E, eqb_reflx in Hne. discriminate.
+  apply negb_true_iff. exact Hne.
 Qed.
 
 (* None = not specified *)
@@ -526,4 +611,120 @@ Proof.
     exists q. split; [exact Hq|]. rewrite Heq.
     rewrite Nat2Z.inj_succ. unfold Z.succ. rewrite inject_Z_plus.
     change (inject_Z 1) with 1%Q. ring.
+Qed.
+
+(* ------------------------------------------------------------------------------------------ derived objects *)
+
+Lemma str_mem_In : forall k l, str_mem k l = true <-> In k l.
+Proof.
+  intros k l. unfold str_mem. rewrite existsb_exists. split.
+  - intros [x [Hx E]]. apply String.eqb_eq in E. subst. assumption.
+  - intro H. exists k. split; [assumption|apply String.eqb_refl].
+Qed.
+
+(* what `derive` holds under key k: the new value if k is changed, else the value of the original *)
+Definition derived_value (settings changes : list entry) (k : string) : option leaf :=
+  match lookup k changes with Some v => Some v | None => lookup k settings end.
+
+Lemma lookup_derive : forall carried settings changes k,
+  lookup k (derive carried settings changes) =
+  if str_mem k carried then derived_value settings changes k else None.
+Proof.
+  induction carried as [|c carried IH]; intros settings changes k; [reflexivity|].
+  unfold derive in *. cbn [flat_map]. rewrite lookup_app, IH. clear IH.
+  unfold str_mem. cbn [existsb].
+  destruct (String.eqb k c) eqn:E.
+  - apply String.eqb_eq in E. subst c. cbn [orb]. unfold derived_value.
+    destruct (lookup k changes) as [v|].
+    + simpl. rewrite String.eqb_refl. reflexivity.
+    + destruct (lookup k settings) as [v|].
+      * simpl. rewrite String.eqb_refl. reflexivity.
+      * simpl. destruct (existsb (String.eqb k) carried); reflexivity.
+  - cbn [orb].
+    assert (Hn : forall v, lookup k [(c, v)] = None).
+    { intro v. simpl. rewrite String.eqb_sym, E. reflexivity. }
+    destruct (lookup c changes) as [v|]; [rewrite Hn; reflexivity|].
+    destruct (lookup c settings) as [v|]; [rewrite Hn; reflexivity|reflexivity].
+Qed.
+
+(* a setting that is carried and not changed keeps the value of the original *)
+Theorem derive_keeps : forall carried settings changes k,
+  In k carried -> lookup k changes = None ->
+  lookup k (derive carried settings changes) = lookup k settings.
+Proof.
+  intros carried settings changes k Hin Hc. rewrite lookup_derive.
+  apply str_mem_In in Hin. rewrite Hin. unfold derived_value. rewrite Hc. reflexivity.
+Qed.
+
+(* a setting that is changed has the new value *)
+Theorem derive_sets : forall carried settings changes k v,
+  In k carried -> lookup k changes = Some v ->
+  lookup k (derive carried settings changes) = Some v.
+Proof.
+  intros carried settings changes k v Hin Hc. rewrite lookup_derive.
+  apply str_mem_In in Hin. rewrite Hin. unfold derived_value. rewrite Hc. reflexivity.
+Qed.
+
+(* nothing else appears *)
+Theorem derive_nothing_else : forall carried settings changes k w,
+  lookup k (derive carried settings changes) = Some w ->
+  In k carried /\
+  (lookup k changes = Some w \/ (lookup k changes = None /\ lookup k settings = Some w)).
+Proof.
+  intros carried settings changes k w H. rewrite lookup_derive in H.
+  destruct (str_mem k carried) eqn:E; [|discriminate].
+  apply str_mem_In in E. split; [assumption|].
+  unfold derived_value in H. destruct (lookup k changes) as [v|]; [left|right; split]; auto.
+Qed.
+
+(* the regenerated shape of Readout.replace carries every setting of a readout *)
+Theorem carries_all_sound : forall params carried,
+  carries_all params carried = true ->
+  (forall k, In k readout_settings -> In (readout_key k) (map readout_key carried)) /\
+  (forall k, In k carried -> In k params).
+Proof.
+  intros params carried H. unfold carries_all in H.
+  apply andb_true_iff in H. destruct H as [H1 H2].
+  rewrite forallb_forall in H1, H2. split.
+  - intros k Hk. apply in_map. apply str_mem_In. apply H1. assumption.
+  - intros k Hk. apply str_mem_In. apply H2. assumption.
+Qed.
+
+(* composition with loading: after a derivation that changes other keys, a readout setting written in the file
+   (or defaulted) is still the one the file means *)
+Theorem derived_keeps_file_setting : forall kind_of params carried defaults doc changes k,
+  carries_all params carried = true ->
+  In k readout_settings -> lookup (readout_key k) changes = None ->
+  lookup (readout_key k) (derive (map readout_key carried) (build kind_of defaults doc) changes)
+  = lookup (readout_key k) (build kind_of defaults doc).
+Proof.
+  intros kind_of params carried defaults doc changes k Hc Hk Hn.
+  apply derive_keeps; [|assumption].
+  apply (proj1 (carries_all_sound _ _ Hc)). assumption.
+Qed.
+
+(* ------------------------------------------------------------------------------------------ what is compared *)
+
+Lemma assoc_mem_In : forall t c p,
+  assoc_mem t c p = true <-> exists ps, In (c, ps) t /\ In p ps.
+Proof.
+  intros t c p. unfold assoc_mem. rewrite existsb_exists. split.
+  - intros [[c' ps] [Hin H]]. simpl in H. apply andb_true_iff in H. destruct H as [Hc Hp].
+    apply String.eqb_eq in Hc. subst c'. exists ps. split; [assumption|]. apply str_mem_In. assumption.
+  - intros [ps [Hin Hp]]. exists (c, ps). split; [assumption|]. simpl.
+    rewrite String.eqb_refl. simpl. apply str_mem_In. assumption.
+Qed.
+
+Theorem params_covered_sound : forall src compared uncompared,
+  params_covered src compared uncompared = true ->
+  (forall c ps p, In (c, ps) src -> In p ps ->
+     (exists qs, In (c, qs) compared /\ In p qs) \/ (exists qs, In (c, qs) uncompared /\ In p qs)) /\
+  (forall c qs p, In (c, qs) (compared ++ uncompared) -> In p qs -> exists ps, In (c, ps) src /\ In p ps).
+Proof.
+  intros src compared uncompared H. unfold params_covered in H.
+  apply andb_true_iff in H. destruct H as [H1 H2]. rewrite forallb_forall in H1, H2. split.
+  - intros c ps p Hin Hp. specialize (H1 (c, ps) Hin). simpl in H1. rewrite forallb_forall in H1.
+    specialize (H1 p Hp). apply orb_true_iff in H1. destruct H1 as [H|H]; apply assoc_mem_In in H; [left|right]; exact H.
+  - intros c qs p Hin Hp. specialize (H2 (c, qs) Hin). simpl in H2. rewrite forallb_forall in H2.
+    specialize (H2 p Hp). apply assoc_mem_In in H2. exact H2.
 Qed.
